@@ -410,46 +410,26 @@ fn run_cursor_item(b: &mut Built, drv: &mut Driver, case: &Value, item: &Value, 
     s.disagree("cursor.driver", &sub, out.brief(), m);
     return;
   }
-  if let Out::Panic { file, msg, .. } = &out {
-    let sig = panic_sig(file, msg, Some(&req));
-    if sig.contains("decode-non-ascii") {
-      let predicted = if fast { &m["legacy_fast"] } else { &m["legacy_hex"] };
-      if predicted != &json!("panic") {
-        s.disagree("cursor.legacy-model-does-not-predict-this-panic", &sub, out.brief(), m.clone());
-      }
-    }
-    return;
+  // the original decoder (before /repo 0bc4e6f) would have panicked here: input-class count
+  if (if fast { &m["legacy_fast"] } else { &m["legacy_hex"] }) == &json!("panic") {
+    s.count("cursor.original-decoder-would-panic");
   }
-  if cls == "hang" {
+  if cls == "panic" || cls == "hang" {
     return;
-  }
-  // the mechanism model of the unchanged decoder says "panic" but the code answered: either
-  // the decoder was repaired or the legacy model is wrong — the canonical witness decides
-  let predicted = if fast { &m["legacy_fast"] } else { &m["legacy_hex"] };
-  if predicted == &json!("panic") {
-    let mut probe = base.clone();
-    probe["cursor"] = json!(format!("a{}b", "é".repeat(20)));
-    let still_panics = matches!(run_text(b, &probe.to_string()), Out::Panic { ref msg, .. } if msg.contains("Utf8Error"));
-    if still_panics {
-      s.disagree("cursor.legacy-model-predicts-a-panic-that-did-not-happen", &sub, out.brief(), m.clone());
-    } else {
-      s.count("cursor.decoder-repaired-in-code");
-    }
   }
   if fast {
     let Some(_) = gen else {
       s.count("cursor.generation-unknown");
       return;
     };
-    let (p, np) = (&m["fast_plus"], &m["fast_noplus"]);
-    let model_ok = p["cls"] == json!("ok") || np["cls"] == json!("ok");
-    let model_err = p["cls"] == json!("error") || np["cls"] == json!("error");
-    if p["cls"] != np["cls"] {
+    // model = the code as it is: UTF-8 test, radix parse (leading `+` accepted), generation test
+    let p = &m["fast_plus"];
+    if p["cls"] != m["fast_noplus"]["cls"] {
       s.count("cursor.sign-rule-matters");
     }
-    if cls == "ok" && !model_ok {
+    if cls == "ok" && p["cls"] != json!("ok") {
       s.disagree("cursor.fast.accepted-but-model-rejects", &sub, out.brief(), m.clone());
-    } else if cls == "error" && !model_err {
+    } else if cls == "error" && p["cls"] == json!("ok") {
       // decodable, right generation: only "not in this result set" may still reject it
       if unmodified {
         s.disagree("cursor.fast.real-cursor-rejected", &sub, out.brief(), m.clone());
@@ -464,14 +444,13 @@ fn run_cursor_item(b: &mut Built, drv: &mut Driver, case: &Value, item: &Value, 
       }
     }
   } else {
-    let (p, np) = (&m["hex_plus"], &m["hex_noplus"]);
-    let model_ok = p["cls"] == json!("ok") || np["cls"] == json!("ok");
-    if cls == "ok" && !model_ok {
+    let p = &m["repaired_hex"];
+    if cls == "ok" && p["cls"] != json!("ok") {
       s.disagree("cursor.sort.accepted-but-model-rejects", &sub, out.brief(), m.clone());
     }
     if cls == "ok" {
       // what was accepted must be the hex of a JSON payload of version 2
-      let bytes: Vec<u8> = p["bytes"].as_array().or(np["bytes"].as_array()).map(|a| a.iter().map(|x| x.as_u64().unwrap_or(0) as u8).collect()).unwrap_or_default();
+      let bytes: Vec<u8> = p["bytes"].as_array().map(|a| a.iter().map(|x| x.as_u64().unwrap_or(0) as u8).collect()).unwrap_or_default();
       let parsed: Option<Value> = serde_json::from_slice(&bytes).ok();
       if parsed.as_ref().map(|v| v["version"] != json!(2)).unwrap_or(true) {
         s.disagree("cursor.sort.accepted-payload", &sub, out.brief(), m.clone());
@@ -688,8 +667,13 @@ fn run_plan_item(b: &mut Built, drv: &mut Driver, case: &Value, item: &Value, s:
   }
   let verdict = m["verdict"].as_str().unwrap_or("?");
   s.count(&format!("plan.model-{verdict}"));
+  // the original loop (before /repo 458e503) would have tripped its debug_assert here
+  if m["legacy_verdict"] == json!("inconsistent-leaf") && b.segments > 0 {
+    s.count("plan.original-loop-would-panic");
+  }
   s.add("plan.leaves", m["leaf_count"].as_u64().unwrap_or(0));
-  if m["functional"] != m["slots_disjoint"] {
+  s.add("plan.scored-terms", m["scored_terms"].as_u64().unwrap_or(0));
+  if m["functional"] != m["slots_disjoint"] || (m["legacy_verdict"] == json!("fine")) != (m["functional"] == json!(true)) {
     s.disagree("plan.model-invariant", &sub, out.brief(), m.clone());
   }
   let real = match &out {
@@ -699,19 +683,8 @@ fn run_plan_item(b: &mut Built, drv: &mut Driver, case: &Value, item: &Value, s:
     Out::Ok(_) => "fine",
     _ => "error",
   };
-  // the loop with the assertion runs once per segment, only when there are scored terms
-  let expected = if b.segments == 0 || m["qualified"].as_array().map(|a| a.is_empty()).unwrap_or(true) { "fine" } else { verdict };
-  if real != expected {
-    if expected == "inconsistent-leaf" && real == "fine" {
-      // either the assertion was repaired in the code or the model is wrong about this query:
-      // the canonical witness on the same index decides
-      let probe = json!({"query": "rust body:rust", "limit": 5, "return_stored": false, "highlight_field": null});
-      let repaired = !matches!(run_text(b, &probe.to_string()), Out::Panic { ref msg, .. } if msg.contains("Inconsistent leaf for term key"));
-      if repaired {
-        s.count("plan.assertion-absent-in-code");
-        return;
-      }
-    }
+  // model of the code as it is: no assertion of the scoring path fires, whatever the query
+  if real != verdict {
     s.disagree("plan.assertion-verdict", &sub, json!({"real": real, "outcome": out.brief(), "segments": b.segments}), m);
   }
 }
@@ -999,6 +972,6 @@ impl Prop for C16 {
   fn finish(&self, _tier: Tier, s: &mut Summary) {
     s.exhaustive = false;
     s.notes.push("exploration: requests are sampled; only the library API is driven (a panic under extern \"C\" aborts the process, the FFI entry point is covered by C26 with valid requests)".into());
-    s.notes.push("sizes that feed `vec![x; n]`/`with_capacity(n)` are kept <= 10^6: an allocation failure aborts the process and cannot be observed in-process".into());
+    s.notes.push("histogram/date_histogram bounds are sanitised to <= 10^6 buckets in-process (the bucket fill between bounds is unbounded in the code); one-huge-size-parameter requests additionally run in child processes, where an allocation failure (process abort) is observable".into());
   }
 }
